@@ -32,6 +32,10 @@ func NewListRange(expression string) (lr *ListRange, err error) {
 	lr.Selector = selector
 	rowsExpression := expression[bang+1:]
 	startEndStr := strings.Split(rowsExpression, "-")
+	if len(startEndStr) > 2 {
+		// anything after the end row
+		return nil, listRangeErr
+	}
 	if lr.StartRow, err = strconv.ParseInt(startEndStr[0], 10, 64); err != nil {
 		return nil, listRangeErr
 	}
